@@ -733,16 +733,38 @@ def newSpecialSymbol (sh : Shared D L) (sym : Sym) : StepRes D L :=
   | .panic p => .panic p
   | .outOfFuel => .outOfFuel
 
+/-- `Selecting::open_symbol` (the FX1 repair): `new_symbol`, but an empty symbol table (an editor created without
+    `symbols.dat`) is not opened: the request is ignored -/
+def openSymbol (sh : Shared D L) : StepRes D L :=
+  match Selecting.candidates env (newSymbol sh) sh with
+  | .ok [] => .ok (sh, .spin .ignore)
+  | .ok _ => .ok (sh, .toState (.selecting (newSymbol sh)))
+  | .panic p => .panic p
+  | .outOfFuel => .outOfFuel
+
+/-- `Selecting::open_special_symbol` (the FX1 repair): `new_special_symbol`, but a list without candidates (no
+    special symbols for the character and an empty symbol table to fall back to) is not opened:
+    `cancel_selecting` restores the saved cursor and the request is ignored -/
+def openSpecialSymbol (sh : Shared D L) (sym : Sym) : StepRes D L :=
+  match newSpecialSymbol sh sym with
+  | .ok (sh', .toState (.selecting s)) =>
+    match Selecting.candidates env s sh' with
+    | .ok [] => .ok (Shared.cancelSelecting sh', .spin .ignore)
+    | .ok _ => .ok (sh', .toState (.selecting s))
+    | .panic p => .panic p
+    | .outOfFuel => .outOfFuel
+  | r => r
+
 /-- `Entering::start_selecting` (also `EnteringSyllable::start_selecting` after clearing the syllable) -/
 def startSelecting (sh : Shared D L) : StepRes D L :=
   match sh.com.symbolForSelect with
-  | some sym => if sym.isSyl then openPhrase env sh else newSpecialSymbol sh sym
+  | some sym => if sym.isSyl then openPhrase env sh else openSpecialSymbol env sh sym
   | none => .ok (sh, .spin .ignore)
 
 /-- `Entering::start_selecting_or_input_space` -/
 def startSelectingOrInputSpace (sh : Shared D L) : StepRes D L :=
   match sh.com.symbolForSelect with
-  | some sym => if sym.isSyl then openPhrase env sh else newSpecialSymbol sh sym
+  | some sym => if sym.isSyl then openPhrase env sh else openSpecialSymbol env sh sym
   | none =>
     if sh.com.isEmpty then
       let ch := match sh.options.characterForm with
@@ -790,7 +812,7 @@ def enteringDefault (sh : Shared D L) (ev : KeyEvent) : StepRes D L :=
   match sh.options.languageMode with
   | .chinese =>
     if ev.code == KC.grave && ev.mods.isNone then
-      .ok (sh, .toState (.selecting (newSymbol sh)))
+      openSymbol env sh
     else if ev.code == KC.space then inputChar sh ev
     else if sh.options.easySymbolInput then
       match (sh.abbr.find? (fun p => p.1 == ev.unicode)).map (·.2) with
@@ -826,7 +848,7 @@ def learnTrans (r : Outcome (Shared D L × Bool)) : StepRes D L :=
 
 /-- Ctrl + digit: open the symbol table (0, 1) or add the `n` symbols before/after the cursor as a phrase -/
 def enteringCtrlDigit (sh : Shared D L) (c : Nat) : StepRes D L :=
-  if c == KC.n0 || c == KC.n1 then .ok (sh, .toState (.selecting (newSymbol sh)))
+  if c == KC.n0 || c == KC.n1 then openSymbol env sh
   else
     let cur := sh.com.cursor
     match sh.options.userPhraseAddDir with
@@ -977,7 +999,13 @@ def Selecting.select (s : Selecting) (sh : Shared D L) (n : Nat) : Outcome (Sele
   | .symbol y =>
     match y.select offset with
     | .ok (some sym, y') => finish sh sym |>.map fun (_, sh', t) => ({ s with sel := .symbol y' }, sh', t)
-    | .ok (none, y') => .ok ({ s with sel := .symbol y', pageNo := 0 }, sh, .spin .absorb)
+    | .ok (none, y') =>
+      -- a category: its sub-table opens on page 0; one without symbols closes the list (the FX1 repair)
+      match y'.menu with
+      | .ok [] => .ok ({ s with sel := .symbol y', pageNo := 0 }, Shared.cancelSelecting sh, .toState .entering)
+      | .ok _ => .ok ({ s with sel := .symbol y', pageNo := 0 }, sh, .spin .absorb)
+      | .panic q => .panic q
+      | .outOfFuel => .outOfFuel
     | .panic q => .panic q
     | .outOfFuel => .outOfFuel
   | .special sym =>
